@@ -415,10 +415,14 @@ def gen_src(rng, u, primary, creator, srctype=None, refcode=None, ncallouts=None
             cands = [r for r in reg if r["type"] == t]
             if cands:
                 reason = rng.choice(cands)["reason"][2:]
+        if t == "BD" and rng.random() < 0.35:
+            # BMC reference code = "BD" + subsystem + reason code; the reason code's first byte names the component
+            # whose SRC parser module is consulted (fixture modules: FX, FY; shipped: E5)
+            reason = rng.choice(["FX", "FX", "FY", "E5", "E5", "2C"]) + rng.choice("0123456789ABCDEF") + rng.choice("0123456789ABCDEF")
         if t == "11":
             refcode = "1100" + reason
         else:
-            refcode = t + compb + reason
+            refcode = t + compb.replace("FX", "8D").replace("FY", "8D") + reason
     words = [rng.randrange(1 << 32) if rng.random() < 0.8 else rng.choice([0, 1, 0xFFFFFFFF, 0x80000000, 0x0000FFFF])
              for _ in range(8)]
     # make words distinct so that any swap shows
